@@ -17,7 +17,7 @@ CLAIMS = {
          'Not covered: that the reported budget equals the definition evaluated on the true phase (dot_product_ct_sk_array uses the NTT; RNSBase::compose_array (CRT) is not under contract), the fresh-budget and additive bounds themselves (need the ring norm inequality over the NTT/CRT representation), exact decryption below the threshold.', '5 C07'),
  'C08': ('Every listed word-level and multi-word primitive carries a contract against an integer specification (x mod q, limb-sequence value, '
          'gcd/Bezout definition, pow) and Verus discharges it for all moduli 2<=q<2^61, all operands and all word counts, function by function. '
-         'Also: compare_uint and the five comparison wrappers, get_significant_uint64_count_uint, get_significant_bit_count_uint, half_round_up_uint, hamming_weight, get_power_of_two (units c08_cmp, c16_sample, c13_params). Not covered: bit-serial divide_uint*/divide_u192 (assumed contract), multiply_uint general path, variable-length shifts, multiply_many_u64, *_uint_mod.', '5 C08'),
+         'Also: compare_uint and the five comparison wrappers, get_significant_uint64_count_uint, get_significant_bit_count_uint, half_round_up_uint, hamming_weight, get_power_of_two (units c08_cmp, c16_sample, c13_params). multiply_many_u64 returns the exact product (k words always hold a product of k words); add_uint_mod / add_uint_mod_inplace / sub_uint_mod return (a +- b) mod m for equal-length operands below the modulus (unit c08_uintmod). Not covered: bit-serial divide_uint*/divide_u192 (assumed contract), multiply_uint general path, variable-length shifts, negate_uint_mod and the remaining *_uint_mod helpers.', '5 C08'),
  'C01': ('The arithmetic anchor of BFV encryption/decryption exactness: scaling_variant::multiply_add_plain and multiply_sub_plain are proved, for every plain modulus t, every level and every plaintext with coefficients below t, to add/subtract in every RNS word '
          'exactly D*m + floor((R*m + floor((t+1)/2))/t) mod q_j (D = floor(Q/t) mod q_j and R = Q mod t taken from the level constants) and to leave all other words untouched; a spec-level theorem shows this equals floor((Q*m + floor((t+1)/2))/t), '
          'i.e. round(Q*m/t) computed without big integers. ASSUMED: the level constants equal their definitions (C13). '
@@ -71,7 +71,7 @@ CLAIMS = {
          'Fast base conversion and the BEHZ tools (unit c10_behz): BaseConverter::fast_convert_array returns in word (i, j) exactly (sum_l [x_l * (Q/q_l)^-1]_{q_l} * [Q/q_l]_{p_i}) mod p_i for every base size and coefficient count (the two-word dot product shown free of overflow for up to 64 primes of up to 61 bits), and refuses inconsistent lengths; '
          'fastbconv_m_tilde (scale by m_tilde, convert q -> Bsk and q -> {m_tilde}), sm_mrq ((x + q*[-x*q^-1]_centered) * m_tilde^-1 per Bsk prime), fast_floor ((x_Bsk - FastBConv(x_q)) * q^-1) and fastbconv_sk (Shenoy-Kumaresan with the centered alpha correction) are proved word by word against these formulas, and so is RNSTool::decrypt_scale_and_round (BFV decryption: scale by gamma*t, convert to {t, gamma}, multiply by -q^-1, subtract the centered gamma component, multiply by gamma^-1 mod t). '
          'ASSUMED: shapes and operands stored by RNSBase::initialize / RNSTool::new (sizes, operand quotients, Bsk = B U {m_sk}, m_tilde below every Bsk prime). '
-         'Not covered yet: that these word formulas compose to the exact centered integer result (BEHZ error analysis), decompose/compose (CRT), exact_convey (uses f64), RNSTool::new.', '5 C10'),
+         'RNSBase::decompose / compose (unit c08_uintmod): decompose stores value mod q_i in word i (a single-modulus base is left as it is), compose returns sum_i ((x_i * P_i^-1) mod q_i) * P_i mod Q with every intermediate below Q, and the CRT lemma shows that this integer has residue x_i modulo every q_i (the punctured products, their inverses and divisibility facts established by the external `initialize` are ASSUMED); RNSBase::new accepts only non-empty, zero-free, pairwise coprime bases (c13_rnsbase). Not covered yet: that the BEHZ word formulas compose to the exact centered integer result (error analysis), decompose_array / compose_array (iterator closures), exact_convey (uses f64), RNSTool::new.', '5 C10'),
  'C16': ('Two groups of contracts. (1) BlakeRNG as a data structure with an abstract view: the generator is a position in ONE byte stream determined by the seed (block c of the stream is the BLAKE3 XOF of seed||le64(c), the XOF being an uninterpreted function); '
          'representation invariant (the buffer holds block counter-1, buffer_current bytes consumed) established by from_seed and preserved by refill_buffer, fill_bytes, next_u32, next_u64; fill_bytes hands out exactly the next |dest| stream bytes and advances the position by |dest| '
          '(so output does not depend on how reads are chunked: a corollary of the contract), next_u32/next_u64 read the next 4/8-aligned little-endian word. '
